@@ -204,6 +204,76 @@ theorem early_indexes_intact (ct : ConvTable) (fault : Option Nat) (commitOnErro
   rw [early_orig_intact ct fault commitOnError p mode db0 t0 h0 hearly]
   exact ⟨rfl, rfl, rfl⟩
 
+/-! ## which batches are a recreate -/
+
+theorem directStmts_not_createTmp (ops : List BatchOp) : ∀ s ∈ directStmts ops, ∀ sch, s ≠ Stmt.createTmp sch := by
+  induction ops with
+  | nil => intro s hs; simp [directStmts] at hs
+  | cons o r ih =>
+    intro s hs sch
+    cases o <;> simp only [directStmts, List.mem_cons] at hs
+    all_goals first
+      | exact ih s hs sch
+      | (rcases hs with rfl | hs
+         · intro h; cases h
+         · exact ih s hs sch)
+
+/-- **`recreates` agrees with the model's own decision.**  For every input of `runBatch` (table, operations, `recreate`, fault, scope,
+connection mode, `copy_from`, …): the outcome's `recreated` flag is `recreates` (unless `add_column` was refused at queue time, where no
+statement is issued at all), and whenever the run issues a statement at all, its **first statement is `CREATE TABLE` of the temporary table
+exactly when `recreates` says so** — otherwise it is one of the plain `ALTER TABLE ADD COLUMN` / `CREATE INDEX` / `DROP INDEX`. -/
+theorem recreates_iff_plan_has_createTmp (ct : ConvTable) (tn : String) (refl always : Bool) (ops : List BatchOp) (fault : Option Nat)
+    (commit : Bool) (db : Db) (mode : ConnMode) (tddl : Bool) (cf : Option Schema) (fk : FailKind) (pr : List (List String)) (sl : String) :
+    let o := runBatch ct tn refl always ops fault commit db mode tddl cf fk pr sl
+    (o.recreated = true → recreates (sl ++ tn) always ops = true) ∧
+    (∀ s, o.trace.head? = some s → ((∃ sch, s = Stmt.createTmp sch) ↔ recreates (sl ++ tn) always ops = true)) ∧
+    (∀ s, o.trace.head? = some s → o.recreated = recreates (sl ++ tn) always ops) := by
+  simp only [runBatch, recreates, shouldRecreate]
+  split
+  · -- refused at queue time
+    simp
+  · split
+    · -- the ALTER path
+      rename_i hq hno
+      have hno' : (always || (expandOps (sl ++ tn) ops).any opForcesRecreate) = false := by simpa using hno
+      obtain ⟨k, hk⟩ := execAll_trace_take (ct := ct) (fault := fault) (directStmts (expandOps (sl ++ tn) ops)) (Run.start (Conn.start mode db))
+      refine ⟨by simp, ?_, ?_⟩
+      · intro s hs
+        simp only at hs
+        rw [hk] at hs
+        have hmem : s ∈ directStmts (expandOps (sl ++ tn) ops) := by
+          simp only [Run.start, List.nil_append] at hs
+          exact List.mem_of_mem_take (List.mem_of_mem_head? hs)
+        rw [hno']
+        constructor
+        · rintro ⟨sch, rfl⟩; exact absurd rfl (directStmts_not_createTmp _ _ hmem sch)
+        · intro h; cases h
+      · intro s _; rw [hno']
+    · -- the move-and-copy path
+      rename_i hq hyes
+      have hyes' : (always || (expandOps (sl ++ tn) ops).any opForcesRecreate) = true := by
+        cases hb : (always || (expandOps (sl ++ tn) ops).any opForcesRecreate) with
+        | true => rfl
+        | false => exact absurd (by simp [hb]) hyes
+      rw [hyes']
+      split
+      · simp
+      · split
+        · simp
+        · split
+          · simp
+          · split
+            · simp
+            · rename_i st _ _ _
+              have hshape := (create_trace_shape (ct := ct) (fault := fault)
+                (p := { st.plan with transactionalDdl := tddl, failKind := fk }) (r := Run.start (Conn.start mode db)) rfl).1
+              refine ⟨fun _ => rfl, ?_, fun _ _ => rfl⟩
+              intro s hs
+              simp only at hs
+              rw [hshape] at hs
+              cases hs
+              exact ⟨fun _ => rfl, fun _ => ⟨_, rfl⟩⟩
+
 /-! ## the temporary table after an early failure: as strong as it is true -/
 
 /-- shape of finding C11-F2: the run ended in a later statement of `create_table` (a `CREATE INDEX` on the
@@ -310,6 +380,28 @@ theorem tmp_taken_untouched (ct : ConvTable) (fault : Option Nat) (commitOnError
   rw [h.2]
   cases mode <;> (split <;> rfl)
 
+/-- **Exactly when the temporary table stays (pysqlite's default transaction control, single fault).**  After a failure at or before
+`DROP` of the original, `_alembic_tmp_<t>` is left behind **if and only if** the run ended in a later statement of `create_table` (the
+shape of finding C11-F2) or the scope rolled back while the implicit transaction opened by the `INSERT` was open (the shape of C11-F1). -/
+theorem early_tmp_left_behind_iff (ct : ConvTable) (fault : Option Nat) (commitOnError : Bool) (p : Plan) (t0 : Tbl)
+    (hearly : Early (run ct fault p { orig := some t0, tmp := none }))
+    (hsingle : ¬ CleanupFaulted fault (run ct fault p { orig := some t0, tmp := none })) :
+    (final ct fault commitOnError p { orig := some t0, tmp := none }).tmp ≠ none ↔
+      (FailedInCreateTableTail (run ct fault p { orig := some t0, tmp := none }) ∨
+       RolledBackOpenTxn commitOnError (run ct fault p { orig := some t0, tmp := none })) := by
+  constructor
+  · intro hleft
+    by_cases h2 : FailedInCreateTableTail (run ct fault p { orig := some t0, tmp := none })
+    · exact .inl h2
+    · by_cases h1 : RolledBackOpenTxn commitOnError (run ct fault p { orig := some t0, tmp := none })
+      · exact .inr h1
+      · exact absurd (early_tmp_gone ct fault commitOnError p .pysqliteLegacy t0 hearly h2 h1 hsingle) hleft
+  · rintro (h2 | h1)
+    · exact early_tmp_left_create_table_tail ct fault commitOnError p t0 hearly h2
+    · have hc : commitOnError = false := h1.1
+      subst hc
+      exact early_tmp_left_rolled_back ct fault p t0 hearly h1
+
 /-- **C11.early in the property's own words.**  For a fault injected at statement `k ≤ index(DROP original)`
 (`index(DROP original) = number of create_table statements + 1`, i.e. `p.tmpIndexes.length + 2`), schema, indexes
 and rows of the original table are unchanged — in both scopes, whatever else fails naturally. -/
@@ -379,6 +471,16 @@ temporary table, INSERT) and the checker rejects an original that lost an index 
 example : ((run [] (some 3) w_plan2 { orig := some w_t0, tmp := none }).1.trace.map safe) = [true, true, true, false, true] := by decide
 example : Spec.Batch.check11 [] { w_t0 with schema := { w_t0.schema with indexes := [{ name := "ix", cols := ["a"], unique := false }] } }
     [] true { orig := some w_t0, tmp := none } ≠ [] := by decide
+
+/-- both sides of `early_tmp_left_behind_iff` occur: the NOT NULL witness leaves the table when the scope rolls back and not when it commits -/
+example : (final [] none false w_plan1 { orig := some w_t0, tmp := none }).tmp ≠ none ∧
+    (final [] none true w_plan1 { orig := some w_t0, tmp := none }).tmp = none := by decide
+
+/-- `recreates`: under `auto` an index-only batch is not a recreate (first statement CREATE INDEX), one with a nullable change is -/
+example : recreates "t" false [.createIndex { name := "ix", cols := ["a"], unique := false }] = false ∧
+    recreates "t" false [.alterColumn "a" none none (some false) .keep] = true ∧ recreates "t" true [] = true := by decide
+example : (runBatch [] "t" true false [.createIndex { name := "ix", cols := ["a"], unique := false }] none false
+      { orig := some w_t0, tmp := none }).trace.head? = some (.createIndex { name := "ix", cols := ["a"], unique := false }) := by decide
 
 /-- the checker run on the implementation's observation rejects a lost row and a left-over temporary table -/
 example : Spec.Batch.check11 [] w_t0 [] true { orig := some { w_t0 with rows := [] }, tmp := none } ≠ [] := by decide
